@@ -17,7 +17,8 @@ RULE = ("addr: structured generator (atoms, quoted strings, quoted pairs, routes
         "'+'/'.' placement, 128/255/320/63 length edges, 6% byte mutations, 1% non-ASCII) plus a naive random stream; each address goes "
         "through ParseEmailAddress and, per naming mode, NewRecipient, ExtractMailbox and ExtractMailbox of the resulting name. "
         "case / plus: pairs (letter-case variant; l@d vs l+e@d) through NewRecipient in each mode. ip: net.ParseIP assumptions. "
-        "pop3 / live: real SMTP RCPT+DATA, then lookup by the address through the manager, REST and POP3. "
+        "pop3 / live: RCPT+DATA on a real SMTP session (net.Pipe), then lookup by the address through Manager.MailboxForAddress, every REST v1 and web-UI "
+        "handler on the real router (list, show, source, mark-seen, delete, purge) and a real POP3 session (USER <address>). "
         "distinct = distinct input line; non-trivial = accepted by NewRecipient in at least one mode (addr, pop3, live), "
         "both variants accepted in at least one mode (case, plus), literal accepted by ParseIP (ip).")
 TRUSTED = [
@@ -29,7 +30,10 @@ TRUSTED = [
     "argument of MailboxForAddress, and StoreManager.MailboxForAddress is recognised syntactically as `return s.AddrPolicy.ExtractMailbox(x)`",
 ]
 ASSUMPTIONS = ["config.Root.MailboxNaming is one of local/full/domain (config.Process admits nothing else)"]
-NOT_PROVED = []
+NOT_PROVED = [
+    "plus_insensitive_any_stmt (Proofs/AddrPlus.v): +extension insensitivity for EVERY l, e, d (at signs inside l, quoting inside the "
+    "extension); proved is the case 'l holds no at sign, extension unquoted' (plus_insensitive); the oracle checks the general clause on all generated pairs",
+]
 KNOWN_MUST_REPRODUCE = True
 
 
